@@ -31,6 +31,7 @@ man = {
               "source_commits": [], "add_only": True},
     "engines": [
         {"name": "hypothesis", "path": "/venv/lib/python3.12/site-packages/hypothesis", "serves_properties": [c["property_id"] for c in checks], "kind_free_text": "property-based testing (given + rule-based state machines), seeded from VERIF_SEED, database off"},
+        {"name": "atheris", "path": "/verif/.deps/atheris", "serves_properties": ["C03"], "kind_free_text": "coverage-guided fuzzing (libFuzzer) of the structured Hypothesis generator through fuzz_one_input, package instrumented at import; thorough tier of C03 (4 of 16 shards); falls back to plain search if the wheel could not be installed"},
         {"name": "enumeration", "path": "/verif/vf", "serves_properties": [c["property_id"] for c in checks if "enumerat" in c["technique"]], "kind_free_text": "complete enumeration of finite sub-spaces with the same oracles"},
     ],
     "checks": checks,
